@@ -58,8 +58,10 @@ public:
    ScopedAttribute& operator =( ScopedAttribute&&) = delete;
 
 private:
-   /// The name of the attribute. Used to remove the attribute again.
+   /// The name of the attribute.
    const std::string  mAttributeName;
+   /// The id of the attribute. Used to remove exactly this attribute again.
+   const size_t       mAttributeId;
 
 }; // ScopedAttribute
 
